@@ -246,6 +246,10 @@ class Seg:
             l = self.loc(e)
             v = self.store.get(l)
             if v is None:
+                if l.startswith('G:') and '.' not in l[2:].split('::')[-1] and '[' not in l:
+                    gv = self.global_value(l[2:], 'int')
+                    if isinstance(gv, ZPoly) and gv.is_const():
+                        return gv
                 self.reads.add(l)
                 return ZPoly.var(l)
             return v
@@ -270,6 +274,30 @@ class Seg:
             if isinstance(r, ZPoly):
                 return r
             return ZPoly.var('call@' + loc_str(e))
+        if k == 'bin' and e.get('op') in ('>>', '<<', '&', '|', '/', '%'):
+            a, b = self.ival(e['lhs']), self.ival(e['rhs'])
+            if a.is_const() and b.is_const():
+                x, y = a.const_value(), b.const_value()
+                try:
+                    return ZPoly.const({'>>': x >> y, '<<': x << y, '&': x & y, '|': x | y, '/': x // y if y else 0, '%': x % y if y else 0}[e['op']])
+                except Exception:
+                    pass
+            return ZPoly.var('(%s%s%s)' % (show_int(a), e['op'], show_int(b)))
+        if k == 'bin' and e.get('op') in ('==', '!=', '<', '<=', '>', '>='):
+            try:
+                a, b = self.ival(e['lhs']), self.ival(e['rhs'])
+                if a.is_const() and b.is_const():
+                    x, y = a.const_value(), b.const_value()
+                    return ZPoly.const(int({'==': x == y, '!=': x != y, '<': x < y, '<=': x <= y, '>': x > y, '>=': x >= y}[e['op']]))
+            except Unsupported:
+                pass
+        if k == 'un' and e.get('op') == '!':
+            try:
+                a = self.ival(e['e'])
+                if a.is_const():
+                    return ZPoly.const(int(not a.const_value()))
+            except Unsupported:
+                pass
         if k == 'bin' or (k == 'un' and e.get('op') == '!'):
             return ZPoly.var(self.boolname(e))
         raise Unsupported('integer expression %s at %s' % (k, loc_str(e)))
@@ -372,6 +400,13 @@ class Seg:
                 return None
             if isinstance(v, ZPoly) and v.is_const():
                 return bool(v.const_value())
+        if k in ('bin', 'un', 'ref', 'member', 'load') and (e.get('t') or {}).get('k') in ('bool', 'int'):
+            try:
+                v = self.ival(e)
+                if v.is_const():
+                    return bool(v.const_value())
+            except Unsupported:
+                pass
         return None
 
     def cond_key(self, e):
@@ -563,6 +598,12 @@ class Seg:
             if ka in ('G1', 'G2', 'GT', 'SC'):
                 return ('equal', self.val(args[0], ka), self.val(args[1], ka))
             return None
+        if name == 'fill_table' and th is not None and args:
+            self.write(tl + '.base', self.val(args[0]))
+            return None
+        if name == 'from_bigint' and th is not None and args:
+            self.write(tl + '.value', self.val(args[0], 'SC'))
+            return None
         if name in ('encode',) and th is not None:
             self.write(tl, ('enc', self.val(args[0])))
             return None
@@ -618,6 +659,18 @@ class Seg:
             self.write(tl, Elt.base(g, self.new_fresh('gen')))
         elif name == 'from_hash':
             self.write(tl, Elt.base(g, 'H(%s)' % self.describe_arg(args[0])[1]))
+        elif name == 'frobenius_map':
+            pw = self.ival(args[1])
+            if not pw.is_const():
+                raise Unsupported('frobenius_map with a run-time power at %s' % loc_str(e))
+            v = self.val(args[0], g)
+            for _ in range(pw.const_value()):
+                v = v.scale(ZPoly.var('FROB'))
+            self.write(tl, v)
+        elif name == 'endomorphism':
+            self.write(tl, self.val(args[0], g).scale(ZPoly.var('ENDO')))
+        elif name == 'set':
+            self.write(tl, self.val(args[0], g))
         elif name in ('is_zero', 'is_normalized'):
             return ('pred', name, self.read(tl, g))
         else:
@@ -723,3 +776,140 @@ def segments(g):
                 continue
             out.append((names[c], names[end], p[:-1] if end != g.exit.id else p))
     return out
+
+
+# ---------------------------------------------------------------------------------------------- concrete-control executor
+class _Ret(Exception):
+    pass
+
+
+class _Brk(Exception):
+    pass
+
+
+class _Cont(Exception):
+    pass
+
+
+class StopAt(Exception):
+    """raised by the stop predicate: the state at that point is the result"""
+    pass
+
+
+def _copy_seg(s):
+    import copy
+    n = Seg(s.prog, s.fn)
+    n.store = dict(s.store)
+    n.binds = dict(s.binds)
+    n.written = list(s.written)
+    n.fresh = s.fresh
+    n.calls = list(s.calls)
+    n.ret = s.ret
+    n.reads = set(s.reads)
+    n.conds = list(getattr(s, 'conds', []))
+    return n
+
+
+def exec_until(prog, fn, stop, max_states=256):
+    """Execute fn's body with concrete control where the segment's own values decide the conditions (constant loop bounds), forking
+    on the others, until `stop(stmt)` is true for a statement about to be executed (or the function returns).  Returns the list of
+    segments (each with .conds = [(key, outcome)] of the forks taken)."""
+    start = Seg(prog, fn)
+    start.conds = []
+    results = []
+
+    def branch(seg, c):
+        c = strip(c)
+        if c.get('k') == 'bin' and c.get('op') == '&&':
+            out = []
+            for (r, x) in branch(seg, c['lhs']):
+                out += branch(x, c['rhs']) if r else [(False, x)]
+            return out
+        if c.get('k') == 'bin' and c.get('op') == '||':
+            out = []
+            for (r, x) in branch(seg, c['lhs']):
+                out += [(True, x)] if r else branch(x, c['rhs'])
+            return out
+        if c.get('k') == 'un' and c.get('op') == '!':
+            return [(not r, x) for (r, x) in branch(seg, c['e'])]
+        d = seg.decide(c)
+        if d is not None:
+            return [(d, seg)]
+        key = seg.cond_key(c)
+        for prev, lab in seg.conds:
+            if prev == key and key[0] in ('cmp', 'truth'):
+                return [(lab, seg)]
+        outs = []
+        for lab in (True, False):
+            x = _copy_seg(seg)
+            x.conds.append((key, lab))
+            outs.append((lab, x))
+        return outs
+
+    def run(seg, s):
+        """returns [(seg, status)] with status in ok / continue / break; returned or stopped states go to `results`"""
+        if s is None:
+            return [(seg, 'ok')]
+        if stop(s):
+            results.append(seg)
+            return []
+        k = s.get('k')
+        if k == 'compound':
+            cur = [(seg, 'ok')]
+            for c in s['body']:
+                nxt = []
+                for (x, stt) in cur:
+                    if stt != 'ok':
+                        nxt.append((x, stt))
+                    else:
+                        nxt += run(x, c)
+                cur = nxt
+                if len(cur) + len(results) > max_states:
+                    raise Unsupported('state explosion')
+            return cur
+        if k == 'constexpr_if':
+            return run(seg, s.get('taken'))
+        if k in ('expr', 'decl', 'null'):
+            seg.stmt(s)
+            return [(seg, 'ok')]
+        if k == 'return':
+            seg.stmt(s)
+            results.append(seg)
+            return []
+        if k == 'continue':
+            return [(seg, 'continue')]
+        if k == 'break':
+            return [(seg, 'break')]
+        if k == 'if':
+            outs = []
+            for (r, x) in branch(seg, s['c']):
+                outs += run(x, s['then'] if r else s.get('else'))
+            return outs
+        if k in ('for', 'while'):
+            cur = [x for (x, stt) in run(seg, s.get('init'))] if k == 'for' and s.get('init') else [seg]
+            done = []
+            for _ in range(600):
+                nxt = []
+                for x in cur:
+                    cnds = branch(x, s['c']) if s.get('c') is not None else [(True, x)]
+                    for (r, y) in cnds:
+                        if not r:
+                            done.append((y, 'ok'))
+                            continue
+                        for (z, stt) in run(y, s['body']):
+                            if stt == 'break':
+                                done.append((z, 'ok'))
+                                continue
+                            if k == 'for' and s.get('inc') is not None:
+                                z.expr(s['inc'])
+                            nxt.append(z)
+                cur = nxt
+                if not cur:
+                    return done
+                if len(cur) + len(done) > max_states:
+                    raise Unsupported('state explosion in a loop at %s' % loc_str(s))
+            raise Unsupported('loop at %s does not terminate under the analysis' % loc_str(s))
+        raise Unsupported('statement %s at %s' % (k, loc_str(s)))
+
+    tail = run(start, fn['body'])
+    return results + [x for (x, stt) in tail]
